@@ -85,6 +85,10 @@ pub fn replay_scenario(path: &str) -> Option<u64> {
     let text = std::fs::read_to_string(path).ok()?;
     let i = text.rfind("\"scenario\"")?;
     let rest = &text[i + 10..];
-    let digits: String = rest.chars().skip_while(|c| !c.is_ascii_digit()).take_while(|c| c.is_ascii_digit()).collect();
+    let digits: String = rest
+        .chars()
+        .skip_while(|c| !c.is_ascii_digit())
+        .take_while(|c| c.is_ascii_digit())
+        .collect();
     digits.parse().ok()
 }
